@@ -17,6 +17,7 @@ package checks
 
 import (
 	"fmt"
+	"io"
 	"net"
 	"os"
 	"syscall"
@@ -24,6 +25,7 @@ import (
 
 	"github.com/talostrading/sonic"
 	"github.com/talostrading/sonic/codec/websocket"
+	"github.com/talostrading/sonic/sonicerrors"
 	"verifmc/engine"
 	"verifmc/kern"
 	"verifmc/wsref"
@@ -54,6 +56,37 @@ type c17Env struct {
 	peerClosed bool
 	eos        bool // a read reported an error (end of stream or failure)
 	hdepth     int
+	bigs       int
+	flushes    []*wsCall
+	rawT       bool
+}
+
+// c17Raw is an io.ReadWriter on the raw non-blocking descriptor: Write reports what the kernel took (possibly
+// less than asked, possibly nothing) without an error, which is what the adapter's partial-write path is for.
+type c17Raw struct{ fd int }
+
+func (r *c17Raw) Read(p []byte) (int, error) {
+	n, err := syscall.Read(r.fd, p)
+	switch {
+	case err == syscall.EAGAIN:
+		return 0, sonicerrors.ErrWouldBlock
+	case err != nil:
+		return 0, err
+	case n == 0:
+		return 0, io.EOF
+	}
+	return n, nil
+}
+
+func (r *c17Raw) Write(p []byte) (int, error) {
+	n, err := syscall.Write(r.fd, p)
+	switch {
+	case err == syscall.EAGAIN:
+		return 0, nil
+	case err != nil:
+		return 0, err
+	}
+	return n, nil
 }
 
 func (e *c17Env) drainPeer() {
@@ -116,20 +149,40 @@ func (e *c17Env) writeInFlight() bool {
 	return e.closeC != nil && e.closeC.calls == 0
 }
 
-func (e *c17Env) startWrite() {
-	c := &wsCall{kind: "AsyncWrite"}
+func (e *c17Env) startWrite() { e.startWriteKind(0) }
+
+// startWriteKind: 0 AsyncWrite of a small message; 1 AsyncWriteFrame of a caller-built frame; 2 AsyncWrite of a
+// message far larger than the (minimal) send buffer, so that the adapter's AsyncWriteAll crosses would-block
+// several times while other frames queue up behind it.
+func (e *c17Env) startWriteKind(kind int) {
+	c := &wsCall{kind: []string{"AsyncWrite", "AsyncWriteFrame", "AsyncWrite(big)"}[kind]}
 	e.writes = append(e.writes, c)
-	p := payloadBytes(len(e.writes)+40, 5+len(e.writes))
+	n := 5 + len(e.writes)
+	if kind == 2 {
+		n = 100000
+		if e.rawT {
+			n = 48000 // a dozen or more pieces through the minimal send buffer
+		}
+		e.bigs++
+	}
+	p := payloadBytes(len(e.writes)+40, n)
 	e.wpay = append(e.wpay, p)
-	e.x.Note("start AsyncWrite#%d", len(e.writes))
-	e.ws.AsyncWrite(p, websocket.TypeBinary, func(err error) {
+	e.x.Note("start %s#%d", c.kind, len(e.writes))
+	cb := func(err error) {
 		c.calls++
 		c.err = err
 		if c.calls > 1 {
-			e.x.Fail("ws/write-callback-twice", "AsyncWrite: callback ran %d times", c.calls)
+			e.x.Fail("ws/write-callback-twice", "%s: callback ran %d times", c.kind, c.calls)
 		}
-		e.x.Note("  AsyncWrite cb err=%v", err)
-	})
+		e.x.Note("  %s cb err=%v", c.kind, err)
+	}
+	if kind == 1 {
+		f := e.ws.AcquireFrame()
+		f.SetFIN().SetBinary().SetPayload(p)
+		e.ws.AsyncWriteFrame(f, cb)
+		return
+	}
+	e.ws.AsyncWrite(p, websocket.TypeBinary, cb)
 }
 
 func (e *c17Env) behave() {
@@ -189,8 +242,22 @@ func c17Body(depth int) func(x *engine.X) {
 			engine.HarnessError("FileConn: %v", err)
 		}
 		e.peer = b
+		// transport behind the adapter: the net.Conn itself (its Write never returns short), or the raw descriptor
+		// with a minimal send buffer, whose Write takes what fits — a large message is then written in many pieces,
+		// with a would-block between any two
+		var rw io.ReadWriter = c
+		if x.Pick(2, "transport: net.Conn / raw descriptor with short writes") == 1 {
+			e.rawT = true
+			raw := &c17Raw{fd: -1}
+			sc, _ := c.(syscall.Conn).SyscallConn()
+			sc.Control(func(fd uintptr) {
+				raw.fd = int(fd)
+				syscall.SetsockoptInt(int(fd), syscall.SOL_SOCKET, syscall.SO_SNDBUF, 1)
+			})
+			rw = raw
+		}
 		var ad *sonic.AsyncAdapter
-		sonic.NewAsyncAdapter(ioc, c.(syscall.Conn), c, func(err error, a *sonic.AsyncAdapter) { ad = a })
+		sonic.NewAsyncAdapter(ioc, c.(syscall.Conn), rw, func(err error, a *sonic.AsyncAdapter) { ad = a })
 		ws, _ := websocket.NewWebsocketStream(ioc, nil, websocket.RoleClient)
 		if err := ws.VerifAttach(ad); err != nil {
 			engine.HarnessError("VerifAttach: %v", err)
@@ -216,6 +283,23 @@ func c17Body(depth int) func(x *engine.X) {
 			// the wire once and in order, so an implementation that refuses overlapping writes passes too.
 			if len(e.writes) < 3 {
 				as = append(as, act{"AsyncWrite", func() { e.startWrite() }})
+				as = append(as, act{"AsyncWriteFrame", func() { e.startWriteKind(1) }})
+				if e.bigs == 0 {
+					as = append(as, act{"AsyncWrite(large)", func() { e.startWriteKind(2) }})
+				}
+			}
+			if len(e.flushes) < 1 {
+				as = append(as, act{"AsyncFlush", func() {
+					fc := &wsCall{kind: "AsyncFlush"}
+					e.flushes = append(e.flushes, fc)
+					e.ws.AsyncFlush(func(err error) {
+						fc.calls++
+						fc.err = err
+						if fc.calls > 1 {
+							x.Fail("ws/flush-callback-twice", "AsyncFlush: callback ran %d times", fc.calls)
+						}
+					})
+				}})
 			}
 			if e.closeC == nil {
 				as = append(as, act{"AsyncClose", func() {
@@ -258,7 +342,7 @@ func c17Body(depth int) func(x *engine.X) {
 			x.Nontrivial()
 		}
 		// run the loop to quiescence: the peer's bytes are in the socket; nothing else will happen
-		for i := 0; i < 40; i++ {
+		for i := 0; i < 400; i++ {
 			e.drainPeer()
 			ready := kern.Readable(e.epfd)
 			n, _ := ioc.PollOne()
@@ -272,6 +356,11 @@ func c17Body(depth int) func(x *engine.X) {
 		for i, w := range e.writes {
 			if w.calls != 1 {
 				x.Fail("ws/write-callback-lost", "AsyncWrite#%d: callback ran %d times after the loop went quiescent (actions %v)", i+1, w.calls, names)
+			}
+		}
+		for _, fc := range e.flushes {
+			if fc.calls != 1 {
+				x.Fail("ws/flush-callback-lost", "AsyncFlush: callback ran %d times after the loop went quiescent (actions %v)", fc.calls, names)
 			}
 		}
 		if e.closeC != nil && e.closeC.calls != 1 {
@@ -349,9 +438,9 @@ func c17Body(depth int) func(x *engine.X) {
 }
 
 func c17DFS(tier string) *engine.DFS {
-	depth, dev := 6, 1
+	depth, dev := 5, 1
 	if tier == "thorough" {
-		depth, dev = 8, 2
+		depth, dev = 7, 2
 	}
 	return &engine.DFS{Name: "wsrw@" + tier, Body: c17Body(depth), Procs: 16, WorkerProcs: 1, GCEvery: 50, ShardDepth: 3, MaxDeviations: dev, MaxPoints: 100, HangTimeout: 30 * time.Second}
 }
@@ -367,7 +456,7 @@ func C17(tier string) *engine.Report {
 	tot.Add(d.Run(), rep)
 	tot.Fill(rep, "all action sequences up to the depth bound over a real Stream + AsyncAdapter + socketpair: start AsyncNextFrame/AsyncNextMessage, AsyncWrite, AsyncClose, peer data/ping/close, poll; read-handler behaviours (start a read, a write, both in either order) are deviations; "+
 		"then the loop is run to quiescence (epoll fd not readable and PollOne idle) and callbacks, consumed frames, the peer's byte stream and Pending() are judged; non-trivial = at least one action", d.MaxDeviations)
-	rep.Coverage["depth"] = map[string]int{"quick": 6, "thorough": 8}[tier]
+	rep.Coverage["depth"] = map[string]int{"quick": 5, "thorough": 7}[tier]
 	return rep
 }
 
